@@ -398,6 +398,8 @@ type c17Cmd struct {
 	OUT       *ssa.Function // the function that runs the command
 	stdoutBuf *ssa.Alloc    // the buffer behind Stdout
 	ran       []string      // the facts that say the process was started and exited successfully
+	stderrBuf []*ssa.Alloc  // the buffer(s) behind Stderr, one per acceptable store to the field
+	done      *ssa.Call     // the call after which the process has exited and its output is complete: Run, or Wait after Start
 }
 
 // c17CommandTypestate checks clause (a) and returns the function that runs the command and the printed form of the
@@ -414,6 +416,7 @@ func c17CommandTypestate(c *Ctx, CRE *ssa.Function, cmdCall *ssa.Call) *c17Cmd {
 	// followed by Wait: the fields must be in place when the process starts, and the process has exited successfully
 	// when both returned nil)
 	var ran []string
+	var done *ssa.Call
 	findRun := func(fn *ssa.Function, v ssa.Value) *ssa.Call {
 		var run, start, wait *ssa.Call
 		for _, ci := range allCalls(fn) {
@@ -432,10 +435,12 @@ func c17CommandTypestate(c *Ctx, CRE *ssa.Function, cmdCall *ssa.Call) *c17Cmd {
 		}
 		if run != nil && start == nil && wait == nil {
 			ran = []string{"EQ(" + desc(run) + ",nil)"}
+			done = run
 			return run
 		}
 		if run == nil && start != nil && wait != nil {
 			ran = []string{"EQ(" + desc(start) + ",nil)", "EQ(" + desc(wait) + ",nil)"}
+			done = wait
 			return start
 		}
 		return nil
@@ -518,6 +523,7 @@ func c17CommandTypestate(c *Ctx, CRE *ssa.Function, cmdCall *ssa.Call) *c17Cmd {
 		return placed, detail
 	}
 	var stdoutBuf *ssa.Alloc
+	var stderrBuf []*ssa.Alloc
 	for _, stream := range []string{"Stdout", "Stderr"} {
 		stream := stream
 		ok, detail := decide(stream, func(s c17Set) (bool, string) {
@@ -542,6 +548,8 @@ func c17CommandTypestate(c *Ctx, CRE *ssa.Function, cmdCall *ssa.Call) *c17Cmd {
 			}
 			if stream == "Stdout" {
 				stdoutBuf = buf
+			} else {
+				stderrBuf = append(stderrBuf, buf)
 			}
 			return true, fmt.Sprintf("cap %d", v)
 		})
@@ -578,7 +586,7 @@ func c17CommandTypestate(c *Ctx, CRE *ssa.Function, cmdCall *ssa.Call) *c17Cmd {
 		})
 		c.Check(ok, "command/stdin", "typestate: before Run, Stdin is a reader over the request bytes", w.InstrPos(run), "Stdin is not the request")
 	}
-	return &c17Cmd{OUT: OUT, stdoutBuf: stdoutBuf, ran: ran}
+	return &c17Cmd{OUT: OUT, stdoutBuf: stdoutBuf, ran: ran, stderrBuf: stderrBuf, done: done}
 }
 
 // c17collectCtor collects the sets made inside the constructor: they take effect at the constructor's call in the
@@ -1638,4 +1646,444 @@ func c17TableFacts(c *Ctx, fn *ssa.Function, mode Mode, busy map[*ssa.Function]b
 		}
 	}
 	return facts, quants
+}
+
+// ---------- the commander's outputs on failure: the captured stderr reaches the error mapping ----------
+
+// Clause: "a failing process yields the plugin's own structured error when it printed one". The runner can only do
+// that (runner/error-mapping/*) when the function that runs the command hands it what the process printed on its
+// standard error on EVERY failing way of returning: an exit that fails but returns nil (or anything else) in that
+// result makes the mapping see an empty stderr, and the caller gets the executable-file error in place of the plugin's
+// own RequestError - whatever the mapping does. Hence, as a necessary condition of the clause:
+//
+//	(consumer)      the result of the commander that the runner decodes as the structured error is result #k: read off
+//	                the dataflow - the source operand of every json.Unmarshal whose target is a proto.RequestError object
+//	                is followed back (through parameters of helpers to the arguments at their call sites, through phis) to
+//	                an extracted result of the commander's call; neither position nor name decide;
+//	(every exit)    every way of returning from the function that runs the command which lies after Run (after Wait for
+//	                Start + Wait) and whose error operand is not provably nil returns as result #k the captured standard
+//	                error: Bytes() (or []byte(String())) of THE buffer the limited writer in cmd.Stderr wraps, taken after
+//	                Run returned (bytes.Buffer.Bytes() is a view of the contents at the time of the call: taken before
+//	                Run it stays empty);
+//	(buffer-intact) nothing empties or drains that buffer between Run and the place where its bytes are taken.
+//
+// Exempt: exits that cannot be reached from Run (argument checks; the failure of Start: no process, nothing printed),
+// and exits whose error operand is the nil constant or a value known nil by a branch fact on every path to the exit
+// (the mapping is not consulted for a nil error).
+//
+// Ways of returning are the same as for runner/output-on-success: a return statement, or - when the operands are phis
+// of one block that leads straight to the return (single exit, named results, result locals) - each incoming edge of
+// that block with the operands of that edge taken together and the facts of that edge.
+//
+// Equivalent shapes accepted for the value: the Bytes() call in the return statement or held in a local computed
+// anywhere after Run (one local shared by several failing arms, computed before the error test), a phi all of whose
+// edges are accepted, a single-store local, bytes.Clone / slices.Clone of an accepted value, []byte(buf.String()), the
+// result of an unexported helper all of whose returns give an accepted value (its parameters bound to the arguments:
+// `captured(&stderr)`), a buffer handed to the limiter through a constructor / configuring helper (the typestate rule
+// resolves the buffer). The success exit may return anything (nil or the captured bytes).
+func c17StderrOnFailure(c *Ctx, cmd *c17Cmd, RUN *ssa.Function, oc *ssa.Call) {
+	w := c.W
+	OUT := cmd.OUT
+	const key = "runner/stderr-on-failure"
+	const rule = "every way of returning from the function that runs the command that lies after Run (Wait) and can carry a non-nil error returns, in the result the runner decodes as the plugin's structured error, the captured standard error: Bytes() of the buffer behind cmd.Stderr, taken after Run returned"
+	// (consumer)
+	k, why := c17StderrIndex(c, oc)
+	const ruleK = "the runner decodes exactly one result of the commander as the plugin's structured error (json.Unmarshal into a proto.RequestError): that result is the stderr result"
+	if k < 0 {
+		c.Unk(key+"/consumer", ruleK, w.FnPos(RUN), why)
+		return
+	}
+	c.OK(key+"/consumer", ruleK, w.InstrPos(oc))
+	nres := OUT.Signature.Results().Len()
+	if cmd.done == nil || len(cmd.stderrBuf) == 0 {
+		c.Unk(key, rule, w.FnPos(OUT), "the buffer behind cmd.Stderr or the Run call was not resolved (see command/stderr-capped, command/run)")
+		return
+	}
+	for _, b := range cmd.stderrBuf {
+		if b != cmd.stderrBuf[0] {
+			c.Unk(key, rule, w.FnPos(OUT), "cmd.Stderr is set over more than one buffer")
+			return
+		}
+	}
+	buf := cmd.stderrBuf[0]
+	if k >= nres-1 || nres < 2 || !isErrorType(OUT.Signature.Results().At(nres-1).Type()) || !isByteSlice(OUT.Signature.Results().At(k).Type()) {
+		c.Unk(key, rule, w.FnPos(OUT), fmt.Sprintf("result #%d of %s is not a byte slice followed by an error result", k, fnName(OUT)))
+		return
+	}
+	done := cmd.done
+	fi := w.Info(OUT)
+	// blocks that can be entered after Run returned
+	after := map[*ssa.BasicBlock]bool{}
+	{
+		work := append([]*ssa.BasicBlock{}, done.Block().Succs...)
+		for len(work) > 0 {
+			b := work[len(work)-1]
+			work = work[:len(work)-1]
+			if after[b] {
+				continue
+			}
+			after[b] = true
+			work = append(work, b.Succs...)
+		}
+	}
+	factsAt := func(b *ssa.BasicBlock) map[string]string {
+		if b.Index == 0 {
+			return map[string]string{}
+		}
+		g, ok := fi.mustPassBetween([]int{0}, map[int]bool{b.Index: true})
+		if !ok {
+			return nil
+		}
+		return g
+	}
+	// status of a value as "the captured stderr": 0 accepted, 1 certainly not (why), 2 not decided (why)
+	const (
+		acc = iota
+		no
+		unk
+	)
+	var captured func(v ssa.Value, bind map[*ssa.Parameter]ssa.Value, afterRun func(ssa.Instruction) bool, depth int) (int, string)
+	captured = func(v ssa.Value, bind map[*ssa.Parameter]ssa.Value, afterRun func(ssa.Instruction) bool, depth int) (int, string) {
+		c.Evals++
+		v = c17Resolve(v, bind)
+		if depth > 6 {
+			return unk, "the value is too deeply nested to follow: " + trunc(desc(v), 80)
+		}
+		worst := func(vals []ssa.Value, nb map[*ssa.Parameter]ssa.Value, ar func(ssa.Instruction) bool) (int, string) {
+			st, d := acc, ""
+			for _, e := range vals {
+				if e == v {
+					continue
+				}
+				s1, d1 := captured(e, nb, ar, depth+1)
+				if s1 == no || (s1 == unk && st == acc) {
+					st, d = s1, d1
+				}
+				if st == no {
+					break
+				}
+			}
+			return st, d
+		}
+		switch x := v.(type) {
+		case *ssa.Const:
+			if x.IsNil() {
+				return no, "nil is returned in place of the captured stderr: what the plugin printed is discarded"
+			}
+			return no, "the constant " + desc(x) + " is returned in place of the captured stderr"
+		case *ssa.Phi:
+			if len(x.Edges) == 0 {
+				return unk, "empty phi"
+			}
+			return worst(x.Edges, bind, afterRun)
+		case *ssa.UnOp:
+			if al, ok := x.X.(*ssa.Alloc); ok && x.Op == token.MUL {
+				if sv := singleStore(al); sv != nil {
+					return captured(sv, bind, afterRun, depth+1)
+				}
+			}
+		case *ssa.Extract:
+			if call, ok := x.Tuple.(*ssa.Call); ok {
+				if h := staticCallee(call); h != nil && h.Blocks != nil && w.IsProductFn(h) && !token.IsExported(h.Name()) && len(h.Params) == len(call.Call.Args) && depth < 3 {
+					return c17ThroughHelper(call, h, x.Index, bind, afterRun, captured)
+				}
+			}
+		case *ssa.Call:
+			switch calleeName(x) {
+			case "(*bytes.Buffer).Bytes", "(*bytes.Buffer).String":
+				if len(x.Call.Args) != 1 {
+					break
+				}
+				if src := c17Resolve(x.Call.Args[0], bind); src != ssa.Value(buf) {
+					return no, "the bytes of " + desc(src) + " are returned, which is not the buffer behind cmd.Stderr"
+				}
+				if !afterRun(x) {
+					return no, "the bytes of the buffer behind cmd.Stderr are taken at " + w.InstrPos(x) + ", not after Run returned on every path (a view taken before the process wrote stays empty)"
+				}
+				return acc, ""
+			case "bytes.Clone", "slices.Clone":
+				if len(x.Call.Args) == 1 {
+					return captured(x.Call.Args[0], bind, afterRun, depth+1)
+				}
+			}
+			if h := staticCallee(x); h != nil && h.Blocks != nil && w.IsProductFn(h) && !token.IsExported(h.Name()) && len(h.Params) == len(x.Call.Args) && h.Signature.Results().Len() == 1 && depth < 3 {
+				return c17ThroughHelper(x, h, 0, bind, afterRun, captured)
+			}
+		}
+		return unk, "cannot tell that " + trunc(desc(v), 100) + " is the captured stderr"
+	}
+	afterRunOUT := func(in ssa.Instruction) bool { return c17Before(done, in) }
+	nFailing := 0
+	decide := func(vals []ssa.Value, g map[string]string, site ssa.Instruction) {
+		ev := vals[nres-1]
+		if isNilConst(ev) || c17Has(g, "EQ("+desc(ev)+",nil)") {
+			return // surely a nil error: the mapping is not consulted
+		}
+		nFailing++
+		st, d := captured(vals[k], map[*ssa.Parameter]ssa.Value{}, afterRunOUT, 0)
+		switch st {
+		case acc:
+			c.OK(key, rule, w.InstrPos(site))
+		case no:
+			c.Bad(key, rule, w.InstrPos(site), fmt.Sprintf("this exit can return the error %s, and as result #%d: %s", trunc(desc(ev), 60), k, d))
+		default:
+			c.Unk(key, rule, w.InstrPos(site), fmt.Sprintf("this exit can return the error %s, and as result #%d: %s", trunc(desc(ev), 60), k, d))
+		}
+	}
+	for _, b := range OUT.Blocks {
+		r, ok := blockTerm(b).(*ssa.Return)
+		if !ok {
+			continue
+		}
+		if len(r.Results) != nres {
+			c.Unk(key, rule, w.InstrPos(r), "a return with an unexpected number of operands")
+			return
+		}
+		g := factsAt(b)
+		if g == nil {
+			continue // unreachable
+		}
+		var pb *ssa.BasicBlock
+		split := true
+		for _, v := range r.Results {
+			if p, ok := v.(*ssa.Phi); ok {
+				if pb != nil && p.Block() != pb {
+					split = false
+				}
+				pb = p.Block()
+			}
+		}
+		if pb == nil || !split || !c17StraightTo(pb, b) {
+			if b == done.Block() || after[b] {
+				decide(r.Results, g, r)
+			}
+			continue
+		}
+		for i, pred := range pb.Preds {
+			pg := factsAt(pred)
+			if pg == nil {
+				continue
+			}
+			if pred != done.Block() && !after[pred] {
+				continue // this way of returning does not pass Run
+			}
+			eg := map[string]string{}
+			for l, s := range g {
+				eg[l] = s
+			}
+			for l, s := range pg {
+				eg[l] = s
+			}
+			if iff, ok := blockTerm(pred).(*ssa.If); ok && len(pred.Succs) == 2 && pred.Succs[0] != pred.Succs[1] {
+				l := condLabel(iff.Cond, pred.Succs[0] == pb)
+				eg[l] = w.InstrPos(iff)
+				if tw, ok := labelTwin(l); ok {
+					eg[tw] = w.InstrPos(iff)
+				}
+			}
+			vals := make([]ssa.Value, nres)
+			for j, v := range r.Results {
+				vals[j] = v
+				if p, ok := v.(*ssa.Phi); ok && p.Block() == pb {
+					vals[j] = p.Edges[i]
+				}
+			}
+			var site ssa.Instruction = r
+			if t := blockTerm(pred); t != nil && t.Pos().IsValid() {
+				site = t
+			}
+			decide(vals, eg, site)
+		}
+	}
+	if nFailing == 0 {
+		c.Unk(key, rule, w.FnPos(OUT), "no failing way of returning after Run was found: the rule no longer matches the code it was written for")
+	}
+	// (buffer-intact)
+	const ruleI = "nothing empties or drains the buffer behind cmd.Stderr between Run and the place where its bytes are taken"
+	drains := map[string]bool{}
+	for _, m := range []string{"Reset", "Truncate", "Next", "Read", "ReadByte", "ReadBytes", "ReadRune", "ReadString", "WriteTo"} {
+		drains["(*bytes.Buffer)."+m] = true
+	}
+	var takes []ssa.Instruction // where the bytes are taken in OUT
+	if refs := buf.Referrers(); refs != nil {
+		for _, r := range *refs {
+			if call, ok := r.(*ssa.Call); ok {
+				if n := calleeName(call); n == "(*bytes.Buffer).Bytes" || n == "(*bytes.Buffer).String" {
+					takes = append(takes, call)
+				}
+			}
+		}
+	}
+	okIntact, dIntact := true, ""
+	var scan func(v ssa.Value, fn *ssa.Function, depth int, inOUT bool)
+	scan = func(v ssa.Value, fn *ssa.Function, depth int, inOUT bool) {
+		refs := v.Referrers()
+		if refs == nil {
+			return
+		}
+		for _, r := range *refs {
+			ci, ok := r.(ssa.CallInstruction)
+			if !ok {
+				continue
+			}
+			if _, isDefer := ci.(*ssa.Defer); isDefer {
+				continue // runs when the function returns: the bytes were taken before
+			}
+			if inOUT && !(ci.Block() == done.Block() && instrIndex(ci) > instrIndex(done)) && !after[ci.Block()] {
+				continue // before Run
+			}
+			if drains[calleeName(ci)] && len(ci.Common().Args) > 0 && ci.Common().Args[0] == v {
+				harmful := !inOUT
+				for _, t := range takes {
+					if !c17Before(t, ci) {
+						harmful = true
+					}
+				}
+				if harmful {
+					okIntact, dIntact = false, calleeName(ci)+" at "+w.InstrPos(ci)+" may run after Run and before the bytes are taken"
+				}
+				continue
+			}
+			if h := staticCallee(ci); h != nil && h.Blocks != nil && w.IsProductFn(h) && len(h.Params) == len(ci.Common().Args) && depth < 2 {
+				for j, a := range ci.Common().Args {
+					if a == v {
+						scan(h.Params[j], h, depth+1, false)
+					}
+				}
+			}
+		}
+	}
+	scan(buf, OUT, 0, true)
+	c.Evals++
+	c.Check(okIntact, key+"/buffer-intact", ruleI, w.InstrPos(done), dIntact)
+	c.MinCount(key, 3, "obligations on the captured stderr (consumer, failing exits, buffer intact)")
+}
+
+// c17ThroughHelper: the idx-th result of a call of the unexported helper h is accepted when every return of h gives an
+// accepted value there, with h's parameters bound to the arguments of the call. A value computed inside the helper is
+// computed while the call runs: it is "after Run" iff the call is.
+func c17ThroughHelper(call *ssa.Call, h *ssa.Function, idx int, bind map[*ssa.Parameter]ssa.Value, afterRun func(ssa.Instruction) bool,
+	captured func(ssa.Value, map[*ssa.Parameter]ssa.Value, func(ssa.Instruction) bool, int) (int, string)) (int, string) {
+	nb := map[*ssa.Parameter]ssa.Value{}
+	for p, q := range bind {
+		nb[p] = q
+	}
+	for j, p := range h.Params {
+		nb[p] = c17Resolve(call.Call.Args[j], bind)
+	}
+	callAfter := afterRun(call)
+	inner := func(ssa.Instruction) bool { return callAfter }
+	st, d, n := 0, "", 0
+	for _, b := range h.Blocks {
+		r, ok := blockTerm(b).(*ssa.Return)
+		if !ok || len(r.Results) <= idx {
+			continue
+		}
+		n++
+		s1, d1 := captured(r.Results[idx], nb, inner, 4)
+		if s1 == 1 || (s1 == 2 && st == 0) {
+			st, d = s1, d1+" (in "+fnName(h)+")"
+		}
+	}
+	if n == 0 {
+		return 2, "no return found in " + fnName(h)
+	}
+	return st, d
+}
+
+// c17StderrIndex: which result of the commander's call the runner decodes as the plugin's structured error. Every
+// json.Unmarshal of the package whose target is (or, through a parameter, is bound at a call site to) a local
+// proto.RequestError object is a consumer; its source is followed back to an extracted result of oc through parameters
+// of module helpers (all their call sites) and phis. All consumers that reach oc must agree.
+func c17StderrIndex(c *Ctx, oc *ssa.Call) (int, string) {
+	w := c.W
+	sitesOf := func(fn *ssa.Function) []ssa.CallInstruction {
+		var out []ssa.CallInstruction
+		for _, g := range w.Funcs {
+			for _, ci := range allCalls(g) {
+				if staticCallee(ci) == fn && len(ci.Common().Args) == len(fn.Params) {
+					out = append(out, ci)
+				}
+			}
+		}
+		return out
+	}
+	paramIdx := func(fn *ssa.Function, p *ssa.Parameter) int {
+		for i, q := range fn.Params {
+			if q == p {
+				return i
+			}
+		}
+		return -1
+	}
+	found := map[int]bool{}
+	var src func(fn *ssa.Function, v ssa.Value, depth int)
+	src = func(fn *ssa.Function, v ssa.Value, depth int) {
+		c.Evals++
+		v = unwrap(v)
+		if depth > 4 {
+			return
+		}
+		switch x := v.(type) {
+		case *ssa.Extract:
+			if x.Tuple == ssa.Value(oc) {
+				found[x.Index] = true
+			}
+		case *ssa.Phi:
+			for _, e := range x.Edges {
+				if e != v {
+					src(fn, e, depth+1)
+				}
+			}
+		case *ssa.Parameter:
+			if i := paramIdx(fn, x); i >= 0 {
+				for _, ci := range sitesOf(fn) {
+					src(ci.Parent(), ci.Common().Args[i], depth+1)
+				}
+			}
+		}
+	}
+	isReqErr := func(v ssa.Value) bool {
+		al, ok := unwrap(v).(*ssa.Alloc)
+		return ok && namedOf(al.Type()) == "ngo/plugin/proto.RequestError"
+	}
+	n := 0
+	for _, fn := range w.FuncsOfPkg("plugin") {
+		for _, ci := range findCalls(fn, "encoding/json.Unmarshal") {
+			args := ci.Common().Args
+			if len(args) != 2 {
+				continue
+			}
+			if isReqErr(args[1]) {
+				n++
+				src(fn, args[0], 0)
+				continue
+			}
+			// a forwarding decoder: target and source are parameters, bound at the call sites
+			dp, ok1 := unwrap(args[1]).(*ssa.Parameter)
+			sp, ok2 := unwrap(args[0]).(*ssa.Parameter)
+			if !ok1 || !ok2 {
+				continue
+			}
+			di, si := paramIdx(fn, dp), paramIdx(fn, sp)
+			if di < 0 || si < 0 {
+				continue
+			}
+			for _, site := range sitesOf(fn) {
+				if isReqErr(site.Common().Args[di]) {
+					n++
+					src(site.Parent(), site.Common().Args[si], 1)
+				}
+			}
+		}
+	}
+	if len(found) == 1 {
+		for k := range found {
+			return k, ""
+		}
+	}
+	if len(found) == 0 {
+		return -1, fmt.Sprintf("%d decode(s) into a proto.RequestError found, none of them reads a result of the commander's call", n)
+	}
+	return -1, "the decodes into a proto.RequestError read different results of the commander's call"
 }
